@@ -212,7 +212,15 @@ def apply_resultpath(input, result, path="$"):
             "The value of \"ResultPath\" MUST NOT begin with \"$$\""
         )
 
-    matches = re.findall(r"[^$.[\]]+", path)  # Regex to split the reference paths
+    """
+    Regex to split the reference path into its keys: ['name'] or ["name"] in
+    bracket notation (the name without its quotes), else a name in dot
+    notation or an array index.
+    """
+    matches = [
+        "".join(key) for key in
+        re.findall(r"\['([^']*)'\]|\[\"([^\"]*)\"\]|([^$.[\]]+)", path)
+    ]
     """
     The result may be (part of) the input itself, e.g. a Pass state without
     Result or Parameters, so place a copy to avoid a circular reference.
@@ -716,7 +724,7 @@ def evaluate_payload_template(input, context, template):
                     "Function String, not {}.".format(k, v)
                 )
             if v == "$":  # It's a path representing the root node
-                v = clone(input)  # clone to avoid potential circular reference
+                v = copy.deepcopy(input)  # copy to avoid potential circular reference
             elif v.startswith("$"):  # It's a path
                 v = apply_path(input, context, v)
             else:  # It's an Intrinsic Function
